@@ -96,6 +96,12 @@ def worker_e(payload):
                 o["n"] += 1
                 if len(sc["handlers"]) > 1 and M:
                     o["nontrivial"] += 1
+            o1e = orc("C01")
+            o1e["n"] += 1
+            if b[0] == "handler":
+                o1e["nontrivial"] += 1
+                if b[1] not in M:
+                    o1e["viol"].append({"law": "a value dispatcher selected a handler one of whose declared types rejects the value (isinstance)", "kind": "dep-rank", "world": w.desc, "scenario": sc_json(sc), "call": j, "impl": b, "accepting": M})
             if b != want:
                 wit = {"kind": "dep-rank", "world": w.desc, "scenario": sc_json(sc), "call": j, "impl": b, "want": want, "strategy": im["strategy"]}
                 if im["strategy"] == "keyed" and b[0] == "raised":
@@ -143,7 +149,8 @@ def py_spec(fw, ew, sc, regs, pos):
     for di in regs:
         d = sc["defs"][di]
         ps = [p for p in d["params"] if p["kind"] != "ko"]
-        if len(ps) != len(args):
+        # the supplied positionals must cover the required ones and not exceed the declared ones
+        if not (len([p for p in ps if p["req"]]) <= len(args) <= len(ps)):
             continue
         if all(safe_isinstance(v, fw.glb[f"T_{d['id']}_{p['name']}"]) for v, p in zip(args, ps)):
             app.append(d)
@@ -174,7 +181,7 @@ def py_spec(fw, ew, sc, regs, pos):
 
     def type_level(d):
         ps = [p for p in d["params"] if p["kind"] != "ko"]
-        if len(ps) != len(args):
+        if not (len([p for p in ps if p["req"]]) <= len(args) <= len(ps)):
             return False
         try:
             return all(_sc(type(v), fw.glb[f"T_{d['id']}_{p['name']}"]) for v, p in zip(args, ps))
@@ -253,6 +260,20 @@ def worker_f(payload):
                     o20["viol"].append({"law": "a repeated successful call consulted user class predicates / resolved again", "npred": b["npred"], "nres": b.get("nres"), "kind": "fn-dep", "world": w.desc, "scenario": sc, "op_index": j})
             if b["o"][0] == "ran":
                 warmed[ck] = True
+            # C04: the same call made first on a brand-new function (same registration history, no earlier call)
+            if j % 3 == 0:
+                o4 = orc("C04")
+                sc2 = dict(sc)
+                sc2["ops"] = [x for x in sc["ops"][:j] if x[0] != "call"] + [op]
+                try:
+                    fr = FnWorld(w, sc2, ew=ew).run()[-1]
+                except Exception as e:  # noqa
+                    fr = {"o": ["harness", type(e).__name__], "t": []}
+                o4["n"] += 1
+                if len(b.get("t", [])) > 1 or b["o"][0] == "ambiguous":
+                    o4["nontrivial"] += 1
+                if (fr["o"], fr.get("t")) != (b["o"], b.get("t")):
+                    o4["viol"].append({"law": "call differs from the same call made first on a fresh function", "fresh": {"o": fr["o"], "t": fr.get("t")}, "impl": {"o": b["o"], "t": b.get("t")}, "kind": "fn-dep", "world": w.desc, "scenario": sc, "op_index": j})
             # C01: every entered body got arguments that satisfy its annotations (isinstance)
             o1 = orc("C01")
             for (mid, bad) in b.get("acc", []):
